@@ -721,7 +721,7 @@ COMPONENTS = {
 }
 TIERS = {
     'quick': {'runs': 40000, 'wall_cap': 300},
-    'thorough': {'runs': 200000, 'wall_cap': 3600},
+    'thorough': {'runs': 700000, 'wall_cap': 3600},
 }
 EXPECTED_PROBES = ['name-leaves-lexically', 'name-steps-on-link', 'extension-fallback-expected',
                    'outside-target-refused']
